@@ -167,8 +167,8 @@ func VerifC01Race() {
 					// answer is the key's current one — the winner's, never the very version the request
 					// named. (Not asserted when the key differed from the expectation to begin with — a
 					// concurrent writer may then have produced exactly the named version meanwhile — nor
-					// when another client deleted the key: there is no current kv then, and the node
-					// answers with the last one it read.)
+					// when another client deleted the key: there is no current kv then; what the node
+					// answers in that case is the subject of VerifC16RefusedDelete.)
 					zzverif.Assert(r.kv.Revision != r.exp, "a condition that failed because a concurrent writer won is answered with the current kv, not with the version the request named")
 				}
 			}
@@ -313,5 +313,39 @@ func VerifC01TwoNodes() {
 		g, err := ahead.Get(vCtx(), &proto.GetRequest{Key: key})
 		zzverif.Assert(err == nil && g.Kv != nil && g.Kv.Revision == top && zzverif.BytesEq(g.Kv.Value, val), "a refused write leaves the key unchanged")
 	}
+	zzverif.Cover("done")
+}
+
+// VerifC16RefusedDelete: a guarded delete / guarded update names the key's current revision, and
+// another client's delete of the key lands between the request's read and its commit (forced from
+// the engine's begin-of-transaction hook, no scheduler involved): the request is refused, and its
+// failure branch carries no key-value — the key has no current one — as etcd answers the same history.
+func VerifC16RefusedDelete() {
+	w := vNewWorld(1)
+	key := vNames[0]
+	rev := w.create("c", key)
+	zzverif.WaitIdle()
+	first := true
+	w.s.OnBegin = func(ops []zzmodel.Op) {
+		if first {
+			first = false
+			d, err := w.b.Delete(vCtx(), &proto.DeleteRequest{Key: key})
+			zzverif.Assert(err == nil && d.Succeeded, "the other client's delete succeeds")
+			zzverif.Cover("deleted-meanwhile")
+		}
+	}
+	if zzverif.Choose("kind", 2) == 0 {
+		resp, err := w.b.Delete(vCtx(), &proto.DeleteRequest{Key: key, Revision: rev})
+		zzverif.Assert(err == nil && !resp.Succeeded, "the guarded delete is refused")
+		zzverif.Assert(resp.Kv == nil, "the failure branch of a delete whose key another client deleted meanwhile carries no key-value")
+	} else {
+		resp, err := w.b.Update(vCtx(), &proto.UpdateRequest{Kv: &proto.KeyValue{Key: key, Value: zzverif.Bytes("u", 1), Revision: rev}})
+		zzverif.Assert(err == nil && !resp.Succeeded, "the guarded update is refused")
+		zzverif.Assert(resp.Kv == nil, "the failure branch of an update whose key another client deleted meanwhile carries no key-value")
+	}
+	w.s.OnBegin = nil
+	zzverif.WaitIdle()
+	g, err := w.b.Get(vCtx(), &proto.GetRequest{Key: key})
+	zzverif.Assert(err == nil && g.Kv == nil, "the key is deleted")
 	zzverif.Cover("done")
 }
